@@ -269,6 +269,11 @@ def C(name, file, rx, subs, nat, flags=re.S):
 _POISON_ZERO = r"if n == 0 \{\s*if (.*?) \{\s*self\.%spoisoned = true;\s*\}\s*return %sErr\(io::ErrorKind::BrokenPipe\.into\(\)\)%s;"
 _POISON_ERR = r"Err\(e\) => \{\s*if (.*?) \{\s*self\.%spoisoned = true;\s*\}\s*return %sErr\(e\)%s;"
 CONDS = [
+    # `FlexVec::truncate` / `pop`: the early return, the empty case (a terminator at slot 0) and the marker written on the last kept item —
+    # the `truncate` site exists only while that shape (early return, `L::zero()` at the start, `L::max_value()` at slot `len - 1`) stands
+    C("cFlexTruncNoop", "containers/src/flex.rs", r"pub fn truncate\(&mut self, len: usize\) \{\s*if (len [<>=!]+ self\.len\(\)) \{\s*return;\s*\}", [(r"self\.len\(\)", "cur")], ["len", "cur"]),
+    C("cFlexTruncEmpty", "containers/src/flex.rs", r"if (len [<>=!]+ 0) \{\s*L::zero\(\)\.emplace\(&mut self\.data\)\.unwrap\(\);\s*\} else \{\s*let mut iter = self\.bytes_mut_iter\(\);\s*if len > 1 \{\s*let _ = iter\.nth\(len - 2\);\s*\}\s*L::max_value\(\)\.emplace\(iter\.data\.unwrap\(\)\)\.unwrap\(\);", [], ["len"]),
+    C("cFlexPopSome", "containers/src/flex.rs", r"pub fn pop\(&mut self\) -> Result<\(\), EmptyError> \{\s*let len = self\.len\(\);\s*if (len [<>=!]+ 0) \{\s*self\.truncate\(len - 1\);\s*Ok\(\(\)\)\s*\} else \{\s*Err\(EmptyError\)", [], ["len"]),
     C("cTagInRange", "macros/src/items/tag.rs", r"if (\*tag [<>=!]+ #var_count) \{\s*Ok\(\(\)\)\s*\} else \{\s*Err\(Error \{\s*kind: ErrorKind::InvalidEnumTag,\s*pos: 0,", [(r"\*tag", "tag"), (r"#var_count", "count")], ["tag", "count"]),
     # `Buffer::skip` / `Buffer::advance`: the window assertions; the `skip` site exists only while the reset of an emptied window follows it
     C("cIoSkipAssert", "io/src/common/io.rs", r"self\.window\.start \+= count;\s*assert!\((.*?)\);\s*if self\.window\.is_empty\(\) \{\s*self\.window = 0\.\.0;\s*\}", [(r"self\.window\.start", "wstart"), (r"self\.window\.end", "wend")], ["wstart", "wend"]),
